@@ -8,6 +8,7 @@ export CARGO_NET_OFFLINE=true CARGO_BUILD_JOBS=8
 git -C /repo worktree remove --force $WT 2>/dev/null
 git -C /repo worktree add -q --detach $WT HEAD || exit 2
 declare -A DEMO=(
+ [C11h_startup_ignores_stoppers_without_interactive]="-p yash-cli --test c11h_startup_dispositions"
  [C08h_subshell_runs_parents_exit_trap]="-p yash-semantics --test c08h_exit_trap_in_subshell"
  [C10h_postfix_on_readonly_ignored]="-p yash-semantics --test c10h_arith_readonly"
  [C12h_jobs_p_does_not_remove_reported_jobs]="-p yash-builtin --test c12h_jobs_pgid_only"
